@@ -99,14 +99,20 @@ class LogExporter final : public sdkl::LogRecordExporter {
 // ---------------------------------------------------------------------------------------------
 // C04: ops 0: T1 SetAttribute(k,1)  1: T1 End  2: T2 SetAttribute(k,2)  3: T2 AddEvent  4: T2 End
 void run_c04(vf::Ctx &c) {
-  int variant = c.pick("variant", 2);  // 1: T2 ends before it adds the event (late mutator on its own thread)
+  // variant bit0: T2 ends before it adds the event (late mutator on its own thread);
+  // variant bit1: T1's first operation is UpdateName("renamed") instead of SetAttribute(k,1)
+  int variant4 = c.pick("variant", 4);
+  int variant = variant4 & 1;
+  bool rename = (variant4 & 2) != 0;
   {
     sdkt::TracerProvider provider(std::unique_ptr<sdkt::SpanProcessor>(new sdkt::SimpleSpanProcessor(std::unique_ptr<sdkt::SpanExporter>(new SpanExporter()))),
                                   opentelemetry::sdk::resource::Resource::GetEmpty());
     auto tracer = provider.GetTracer("t");
     auto span = tracer->StartSpan("s");
     std::thread t1([&] {
-      g->mark(0, 0); span->SetAttribute("k", "1"); g->mark(0, 1);
+      g->mark(0, 0);
+      if (rename) span->UpdateName("renamed"); else span->SetAttribute("k", "1");
+      g->mark(0, 1);
       g->mark(1, 0); span->End(); g->mark(1, 1);
     });
     std::thread t2([&] {
@@ -139,23 +145,23 @@ void run_c04(vf::Ctx &c) {
         if (x != y && ret_at[x] < call_at[y] && posn[x] > posn[y]) ok = false;
     if (!ok) continue;
     bool has_k = false, ended = false;
-    std::string k;
+    std::string k, name = "s";
     int events = 0;
     for (int i = 0; i < 5 && !ended; ++i) {
       switch (perm[i]) {
-        case 0: has_k = true; k = "1"; break;
+        case 0: if (rename) name = "renamed"; else { has_k = true; k = "1"; } break;
         case 2: has_k = true; k = "2"; break;
         case 3: events++; break;
         default: ended = true;
       }
     }
-    if (has_k == o.has_k && (!has_k || k == o.attr_k) && events == o.events) explained = true;
+    if (has_k == o.has_k && (!has_k || k == o.attr_k) && events == o.events && name == o.name) explained = true;
   } while (!explained && std::next_permutation(perm, perm + 5));
   if (!explained)
-    vfs::fail("C04:conc:not-linearizable", vf::sfmt("exported span has k=%s events=%d, which no order of the calls consistent with their call/return order explains",
-                                                    o.has_k ? o.attr_k.c_str() : "(absent)", o.events));
-  c.outcome(vf::sfmt("%d k=%s e=%d", variant, o.has_k ? o.attr_k.c_str() : "-", o.events));
-  c.sample(vf::sfmt("variant=%d exported k=%s events=%d", variant, o.has_k ? o.attr_k.c_str() : "(absent)", o.events));
+    vfs::fail("C04:conc:not-linearizable", vf::sfmt("exported span has name=%s k=%s events=%d, which no order of the calls consistent with their call/return order explains",
+                                                    o.name.c_str(), o.has_k ? o.attr_k.c_str() : "(absent)", o.events));
+  c.outcome(vf::sfmt("%d name=%s k=%s e=%d", variant4, o.name.c_str(), o.has_k ? o.attr_k.c_str() : "-", o.events));
+  c.sample(vf::sfmt("variant=%d exported name=%s k=%s events=%d", variant4, o.name.c_str(), o.has_k ? o.attr_k.c_str() : "(absent)", o.events));
 }
 
 // ---------------------------------------------------------------------------------------------
@@ -318,6 +324,7 @@ void run(vf::Ctx &c) {
   g = &sh;
   c.stage("run");
   vfs::begin(c);
+  vfs::set_post_release_points(true);  // small state spaces: also separate plain accesses from the unlock before them
   if (g_oracle == "C04") run_c04(c);
   else if (g_oracle == "C05") run_c05(c);
   else if (g_oracle == "C10") run_c10(c);
